@@ -426,6 +426,7 @@ StartOp(t, op, r) ==
     /\ LET base == [NewThr("app") EXCEPT !.op = op, !.r = r, !.sid = rpc[r].sid] IN
        SetT(t, CASE op = "Send1" -> Call(base, "MsgSend", MsgArg("Message", 1, Tag(r, nst + 1)), "op.done")
                  [] op = "Send2" -> Call(base, "MsgSend", MsgArg("Message", 2, Tag(r, nst + 1)), "op.done")
+                 [] op = "SendBad" -> Call(base, "MsgSend", MsgArg("Message", 1, "bad" \o ToString(r)), "op.done")
                  [] op = "Recv" -> Call(base, "MsgRecv", NONE, "op.done")
                  [] op = "CloseSend" -> Call(base, "CloseSend", NONE, "op.done")
                  [] op = "Close" -> Call(base, "Close", NONE, "op.done")
@@ -440,7 +441,7 @@ StartClose(t) ==
     /\ Mark /\ Hist([k |-> "connclose", t |-> t])
     /\ UNCHANGED <<mgr, str, wr, net, rbuf, tp, rpc, nrpc, sctx, connmu, wire, hmeta>>
 
-HActs == {"recv", "send1", "send2", "closesend", "retnil", "reterr"}
+HActs == {"recv", "send1", "send2", "sendbad", "closesend", "retnil", "reterr"}
 HStep(a) ==
     /\ Bound /\ "hstep" \in StimKinds
     /\ thr[SvT].opc = "h.wait"
@@ -448,6 +449,7 @@ HStep(a) ==
        SetT(SvT, CASE a = "recv" -> Call(th, "MsgRecv", NONE, "h.done")
                    [] a = "send1" -> Call(th, "MsgSend", MsgArg("Message", 1, "s" \o Tag(sid, nst + 1)), "h.done")
                    [] a = "send2" -> Call(th, "MsgSend", MsgArg("Message", 2, "s" \o Tag(sid, nst + 1)), "h.done")
+                   [] a = "sendbad" -> Call(th, "MsgSend", MsgArg("Message", 1, "bad" \o ToString(sid)), "h.done")
                    [] a = "closesend" -> Call(th, "CloseSend", NONE, "h.done")
                    [] a = "retnil" -> Call(th, "CloseSend", NONE, "sv.finr")
                    [] a = "reterr" -> Call(th, "SendError", [tag |-> "e" \o ToString(sid), gate |-> FALSE], "sv.finr"))
@@ -521,7 +523,7 @@ RelM(t) ==
 
 Controllable ==
     \/ \E t \in CliThreads, op \in {"Invoke", "NewStream"}, md \in {NONE, "M1", "M2"} : StartRPC(t, op, md)
-    \/ \E t \in CliThreads, op \in {"Send1", "Send2", "Recv", "CloseSend", "Close", "SendErr"}, r \in Sids : StartOp(t, op, r)
+    \/ \E t \in CliThreads, op \in {"Send1", "Send2", "SendBad", "Recv", "CloseSend", "Close", "SendErr"}, r \in Sids : StartOp(t, op, r)
     \/ \E t \in CliThreads : StartClose(t)
     \/ \E a \in HActs : HStep(a)
     \/ \E e \in Eps, how \in {"ok", "err"} : RelW(e, how)
